@@ -99,6 +99,8 @@ type proxyCfg struct {
 	IdPAdvertisedPKCE     []string // code_challenge_methods_supported of the discovery document (nil = S256 and plain)
 	RedisRealTime         bool     // miniredis TTLs run down in real time (they are otherwise frozen): locks and entries really expire
 	RedisReadTimeout      time.Duration // read_timeout of the Redis client (0 = the client's default of 3 s)
+	BindAddress           string        // the proxy's own HTTP listener ("" = none: the suites call the handler)
+	SecureBindAddress     string        // with ForceHTTPS: the proxy's own TLS listener (default 127.0.0.1:8443)
 }
 
 type testEnv struct {
@@ -208,6 +210,9 @@ func newEnv(c *suiteCtx, cfg proxyCfg) (*testEnv, error) {
 	o.ForceHTTPS = cfg.ForceHTTPS
 	if cfg.ForceHTTPS {
 		o.Server.SecureBindAddress = "127.0.0.1:8443"
+		if cfg.SecureBindAddress != "" {
+			o.Server.SecureBindAddress = cfg.SecureBindAddress
+		}
 		certDER, keyDER, err := util.GenerateCert("127.0.0.1")
 		if err != nil {
 			return nil, err
@@ -217,6 +222,7 @@ func newEnv(c *suiteCtx, cfg proxyCfg) (*testEnv, error) {
 			Key:  &options.SecretSource{Value: pem.EncodeToMemory(&pem.Block{Type: "PRIVATE KEY", Bytes: keyDER})},
 		}
 	}
+	o.Server.BindAddress = cfg.BindAddress
 	o.RawRedirectURL = cfg.RedirectURL
 	if len(cfg.Htpasswd) > 0 {
 		var sb strings.Builder
